@@ -15,6 +15,13 @@ def run(rep, tier, seed):
                                         'ops': ['self', 'slice', 'accessors'], 'norm': False})
     sec['native_entry'] = ('b_edit', 'replay')
     rep.bounded(sec)
+    # the round-trip laws under the non-default docstring policies (which string statements are re-indented)
+    for ds in ('strict', False):
+        sec = native.run('b_edit', 'main', {'props': ['C08'], 'tier': tier, 'seed': seed, 'ops': ['self', 'slice'],
+                                            'norm': False, 'defaults': {'docstr': ds}, 'stride': 2})
+        sec['name'] += f'[docstr={ds!r}]'
+        sec['native_entry'] = ('b_edit', 'replay')
+        rep.bounded(sec)
     rep.trusted.append('CPython ast.parse as the decoder of string literals')
     rep.remainder = ('the round-trip law of cut / put back and of own copy / source / AST replacement: bounded stand-in only '
                      '(defined by the parser and by source manipulation outside the verifier\'s reach); line-comment '
